@@ -7,7 +7,7 @@ use std::collections::{BinaryHeap, HashMap};
 use std::hash::Hash;
 use std::pin::Pin;
 use std::sync::atomic;
-use std::sync::Arc;
+use std::sync::{Arc, Weak};
 use std::task::{Context, Poll, Waker};
 
 pub(crate) struct QueueInner<S, K: Clone> {
@@ -64,7 +64,10 @@ impl<K: Clone> Ord for ReadyEvent<K> {
 }
 
 struct StreamWaker<S, K: Clone> {
-    inner: Arc<Mutex<QueueInner<S, K>>>,
+    // Weak: this waker is stored by the I/O registration of a stream that the queue
+    // itself owns. A strong reference would keep the queue, and with it every
+    // connection, alive after the socket is gone.
+    inner: Weak<Mutex<QueueInner<S, K>>>,
     event: ReadyEvent<K>,
 }
 
@@ -74,7 +77,11 @@ where
     K: Clone + Send + Sync,
 {
     fn wake_by_ref(arc_self: &Arc<Self>) {
-        let mut inner = arc_self.inner.lock();
+        let inner = match arc_self.inner.upgrade() {
+            Some(inner) => inner,
+            None => return,
+        };
+        let mut inner = inner.lock();
         inner.ready_queue.push(arc_self.event.clone());
         if let Some(waker) = inner.waker.take() {
             waker.wake_by_ref();
@@ -114,7 +121,7 @@ where
             };
 
             let waker = Arc::new(StreamWaker {
-                inner: fair_queue.inner.clone(),
+                inner: Arc::downgrade(&fair_queue.inner),
                 event: event.clone(),
             });
             let waker_ref = waker_ref(&waker);
